@@ -56,6 +56,9 @@ import "bytes"
 //@ iface BodyCompressor.CompressWithLength
 //@   prop C05, C08
 //@   assigns rstream(source), wstream(dest)
+// token view (ASSUMED, like the token clauses of the notation writers): a compressor appends one "compressed body"
+// element (kind 98) - what DecompressWithLength expects to find where the header announces compression
+//@   assumes tok: result == nil ==> tokn(dest) == old(tokn(dest)) + 1 && tokkind(dest, old(tokn(dest))) == 98
 //@ iface BodyCompressor.DecompressWithLength
 //@   prop C05, C08
 //@   assigns rstream(source), wstream(dest)
@@ -262,3 +265,20 @@ func lemmaHeaderRoundTrip(c *codec, h *Header) (*Header, error) {
 //@   ensures header: result1 == nil ==> result0 != nil && result0.Header != nil && result0.Header.IsResponse == f.Header.IsResponse && result0.Header.Version == f.Header.Version && result0.Header.Flags == f.Header.Flags && result0.Header.StreamId == f.Header.StreamId && result0.Header.OpCode == f.Header.OpCode && Z(result0.Header.BodyLength) == Z(len(f.Body))
 //@   ensures bodylen: result1 == nil ==> len(result0.Body) == len(f.Body)
 //@   ensures body: result1 == nil ==> forall k int :: 0 <= k && k < len(f.Body) ==> result0.Body[k] == f.Body[k]
+
+// ---- C05 / C01: the compressed flag alone decides whether the body goes through the compressor ---------------------
+// (the decoder trusts the flag: a body written in plain under a header that announces compression cannot be decoded).
+// Token view of a fresh destination: with the flag set and a successful encode, the first element written is the
+// compressor's.
+func lemmaEncodeBodyFlag(c *codec, header *Header, body *Body) (*bytes.Buffer, error) {
+	dest := &bytes.Buffer{}
+	err := c.EncodeBody(header, body, dest)
+	return dest, err
+}
+
+//@ func lemmaEncodeBodyFlag
+//@   prop C05
+//@   tokens
+//@   expand (*frame.codec).EncodeBody
+//@   requires parts: body.Message != nil
+//@   ensures compressed: result1 == nil && header.Flags.Contains(primitive.HeaderFlagCompressed) ==> tokn(result0) == 1 && tokkind(result0, 0) == 98
